@@ -369,6 +369,18 @@ func (p *Parser) parseBuffer(buf []byte, last bool) (err error) {
 			depth++
 			continue
 		case closeObject:
+			if depth == 0 && !p.OnlyOne && 256 < len(p.mode) && (p.mode[256] == 'n' || p.mode[256] == 't') {
+				// A top level number or token is complete, hand it over before
+				// the brace is reported.
+				if p.mode[256] == 'n' {
+					_ = p.add(p.num.AsNum(), off)
+				} else {
+					p.addToken(off)
+				}
+				p.mode = valueMap
+				off--
+				break
+			}
 			depth--
 			if depth < 0 || 0 <= p.starts[depth] {
 				return p.newError(off, "unexpected object close")
@@ -487,6 +499,18 @@ func (p *Parser) parseBuffer(buf []byte, last bool) (err error) {
 			depth++
 			continue
 		case closeArray:
+			if depth == 0 && !p.OnlyOne && 256 < len(p.mode) && (p.mode[256] == 'n' || p.mode[256] == 't') {
+				// A top level number or token is complete, hand it over before
+				// the bracket is reported.
+				if p.mode[256] == 'n' {
+					_ = p.add(p.num.AsNum(), off)
+				} else {
+					p.addToken(off)
+				}
+				p.mode = valueMap
+				off--
+				break
+			}
 			depth--
 			if depth < 0 || p.starts[depth] < 0 {
 				return p.newError(off, "unexpected array close")
